@@ -33,7 +33,8 @@ CLAIMS = {
           'trigger_event methods to dispatch to on_<event>. Decides the '
           'routing decision for every registry configuration rather than '
           'the two sampled ones.'
-          ' Also: resolver purity - the resolver reads only the registry and its arguments and stores nothing (a cache makes the answer history-dependent).',
+          ' Also: resolver purity - the resolver reads only the registry and its arguments and stores nothing (a cache makes the answer history-dependent).'
+          " Also: the handler tables of different namespaces are distinct objects; the legacy one-argument disconnect retry arm (functions and namespace classes) is exactly: TypeError and event == 'disconnect' -> one re-invocation without the last argument, result returned.",
   'note': TRUST + "Assumes event/namespace names differ from the literal "
           "'*' and registered handlers are truthy. A resolver rewritten "
           'into a form outside the evaluator (lookup loop, helper in '
@@ -57,7 +58,8 @@ CLAIMS = {
           'table. NOT decided: sid freshness (engine.io), threaded races '
           '(C20), delivery after disconnect beyond the room structure.'
           ' Also: a ConnectionRefusedError raised by any invocation of the connect handler (legacy-signature retry included) is contained and handled as a refusal; a refused duplicate CONNECT touches no state keyed by the client.'
-          ' Also: a connect handler that failed with another exception has not accepted the client; can_disconnect answers through is_connected; the release after the disconnect handler is local (ignore_queue=True).',
+          ' Also: a connect handler that failed with another exception has not accepted the client; can_disconnect answers through is_connected; the release after the disconnect handler is local (ignore_queue=True).'
+          ' Also: the request environment is removed only where the transport ends; namespace normalised before the sid lookup; ignore_queue selects is_connected vs can_disconnect; local release of a refused sid.',
   'note': TRUST + 'asyncio tasks interleave only at awaits that can '
           'suspend (computed as a fixed point over the call graph; abstract '
           'coroutines count as suspending).',
@@ -78,7 +80,8 @@ CLAIMS = {
           'async_handlers=False. Exactly-once over whole sequences and '
           'cross-client ACK isolation follow from these per-path facts and '
           'are not explored as histories.'
-          ' Also: the gate and both sid resolvers read one admission table (rooms[ns][None]) and no second index.',
+          ' Also: the gate and both sid resolvers read one admission table (rooms[ns][None]) and no second index.'
+          ' Also: a started handler task stays strongly referenced under itself; engine.io events are wired to the three handlers; _send_packet sends every frame; class-based namespaces hand the result back.',
   'note': TRUST + 'engine.io delivers one client\'s frames in order.',
   'technique': 'static analysis: decision table over packet types and id '
                'domain by symbolic path enumeration, guard dominance, '
@@ -97,7 +100,8 @@ CLAIMS = {
           'transport, packet namespace); call() result table over '
           'len in {0,1,2+} and TimeoutError exactly on wait failure. '
           'Histories with reconnects are covered only through C11 cleanup.'
-          ' Also: at most one callback invocation per ACK on the continuation where the callback raised.',
+          ' Also: at most one callback invocation per ACK on the continuation where the callback raised.'
+          ' Also: call() emits its own event/data/addressee/namespace/ignore_queue with a fresh callback; per-client callback tables are distinct objects.',
   'note': TRUST + 'wire ids cannot be identical to an object() sentinel.',
   'technique': 'static analysis: typestate/order on enumerated paths, '
                'container provenance, decision table',
@@ -111,7 +115,8 @@ CLAIMS = {
           '(sentinel key for the counter); per-namespace counter; emit '
           'generates the id for its namespace before building the packet; '
           'call() table. Per packet path, not over sequences.'
-          ' Also: the client resolver table over all registry states and its purity (the resolver reads only the registry) are shared from C13.',
+          ' Also: the client resolver table over all registry states and its purity (the resolver reads only the registry) are shared from C13.'
+          ' Also: wiring of the engine.io events, _send_packet frames, call() forwarding, class-based namespace results (shared C13.R4), per-namespace callback tables distinct.',
   'note': TRUST,
   'technique': 'static analysis: decision tables by symbolic path '
                'enumeration, typestate, provenance',
@@ -130,7 +135,8 @@ CLAIMS = {
           'collected; background-task references are discarded. Memory '
           'growth as a number is NOT decided.'
           ' Also: room membership only with proof that the sid is connected and nothing created before the failing lookup (F11, fixed); statements indexing client-controlled data in the release sequence count as raisers.'
-          ' Also: asyncio: a CancelledError of an application coroutine is contained where it is awaited (the transport-loss loop catches Exception only).',
+          ' Also: asyncio: a CancelledError of an application coroutine is contained where it is awaited (the transport-loss loop catches Exception only).'
+          ' Also: a client is marked as disconnecting once (shared C04.R2).',
   'note': TRUST + 'raisers = calls that reach application code over the '
           'call graph.',
   'technique': 'static analysis: must-release pairing over enumerated '
@@ -150,7 +156,8 @@ CLAIMS = {
           'connected gate; every answer goes to the sender\'s transport. '
           'Global non-interference over all server states is NOT decided.'
           ' Also: the codec keeps no state outside the packet object (no shared decoder, no globals, no class-attribute writes); the connected-gate itself (is_connected table) is shared from C04.'
-          ' Also: a dict with a truthy _placeholder and a num never survives reconstruction as data (it becomes the attachment or the packet fails).',
+          ' Also: a dict with a truthy _placeholder and a num never survives reconstruction as data (it becomes the attachment or the packet fails).'
+          ' Also: frames are ASCII JSON (ensure_ascii stays on).',
   'note': TRUST + 'engine.io contains exceptions of the message callback.',
   'technique': 'static analysis: taint-to-sink scan, guard dominance on '
                'enumerated paths, key provenance',
@@ -182,7 +189,8 @@ CLAIMS = {
           'F7a/F7b; a lock that covers only one of the two is reported as a '
           'new violation. This is a necessary condition for the property.'
           ' Also: whoever marks the client runs the handler on every path; the handler and the mark are dominated by a connected-test made in the same function.'
-          ' Also: can_disconnect answers through is_connected in every manager (shared C04.R10).',
+          ' Also: can_disconnect answers through is_connected in every manager (shared C04.R10).'
+          ' Also: nothing that can reach the transport or the application runs between the connected-test and the mark.',
   'note': TRUST + 'a repair relying on one GIL-atomic operation is not '
           'recognised.',
   'technique': 'static analysis: lockset (held-lock) check on enumerated '
@@ -202,7 +210,8 @@ CLAIMS = {
           'disconnects before raising and connected is set only when all '
           'namespaces were accepted. Whole histories are NOT explored.'
           ' Also: a packet handler that lowers `connected` closes the transport on the same path (F12, fixed); disconnect() always closes the transport.'
-          ' Also: the default namespace list is the duplicate-free union of the two handler registries.',
+          ' Also: the default namespace list is the duplicate-free union of the two handler registries.'
+          ' Also: connect(): transport failure reported to connect_error per requested namespace, retry branch, every wake-up of the namespace wait consumed; transport closed with abort=True from packet handlers; client resolver tables (shared C13).',
   'note': TRUST,
   'technique': 'static analysis: must-update / guard dominance on '
                'enumerated paths, ownership',
@@ -221,7 +230,8 @@ CLAIMS = {
           'doubled k-1 times and compared with the cap; shutdown aborts '
           'then joins. The back-off law and jitter bounds are NOT decided.'
           ' Also: the single-effort guard _reconnect_task has three writers only; it is released on every exit of an effort (F13: known finding on the give-up and abort exits).'
-          ' Also: the replayed connection_* attributes are written by connect() only.',
+          ' Also: the replayed connection_* attributes are written by connect() only.'
+          ' Also: the abort event is cleared at the start of an effort and raised by nothing reachable from the effort itself.',
   'note': TRUST + 'engine.io clears eio.state before notifying an '
           'intentional close.',
   'technique': 'static analysis: path enumeration with bounded unrolling, '
@@ -237,7 +247,8 @@ CLAIMS = {
           'and TimeoutError only with the buffer empty; emit/call gated on '
           'the connected event and flag with SocketIOError looping back. '
           'Interleavings are NOT explored.'
-          ' Also: the connected flag / connected event state machine of the three connection handlers, who lowers the flag and who signals the event.',
+          ' Also: the connected flag / connected event state machine of the three connection handlers, who lowers the flag and who signals the event.'
+          ' Also: each successful wait on the input event is consumed; the connected flag is read only after a wait on the connected event.',
   'note': TRUST,
   'technique': 'static analysis: ordering/window rules on enumerated paths',
  },
@@ -253,7 +264,8 @@ CLAIMS = {
           'namespace {None, "/", other} x id x data (order type, count-, '
           'nsp, id, compact JSON; a truthiness test that would drop id 0 is '
           'reported); the attachment hand-back protocol; extraction order '
-          'and separators of the scanner agree with the emitter.',
+          'and separators of the scanner agree with the emitter.'
+          ' Also: every item of a list is recursed into on both the extracting and the reconstructing side.',
   'note': TRUST + 'json fidelity and grammar ambiguities (digit adjacency) '
           'are outside the decided part.',
   'technique': 'static analysis: decision tables by symbolic path '
@@ -271,7 +283,8 @@ CLAIMS = {
           'msgpack dict written by _to_dict matches what decode reads, and '
           'no resolved in-package call binds a parameter-named argument to '
           'a different parameter (swapped arguments; positive control).'
-          ' Also: with a binary packet pending every path hands the frame to the pending packet (no frame is dropped on the way).',
+          ' Also: with a binary packet pending every path hands the frame to the pending packet (no frame is dropped on the way).'
+          ' Also: the decoder rejects no frame because of the value of a decoded number; all four _send_packet hand every frame of the encoded packet to the transport in order.',
   'note': TRUST + 'engine.io delivers frames in order.',
   'technique': 'static analysis: decision tables, call-binding and schema '
                'agreement over the ast',
@@ -289,7 +302,8 @@ CLAIMS = {
           'basic_disconnect leaves every room holding the sid with '
           'membership as the only filter, close_room empties the room, '
           'get_rooms hides only room None; recipients are accumulated in a '
-          'mapping keyed by sid (delivery once per client).',
+          'mapping keyed by sid (delivery once per client).'
+          ' Also: a refused connection keeps no membership (shared C04.R4); the room list is split into first element and rest; the collected room names reach the loop that leaves them.',
   'note': TRUST + 'bidict semantics trusted.',
   'technique': 'static analysis: guard dominance and provenance on '
                'enumerated paths, ownership, key discipline',
@@ -308,7 +322,8 @@ CLAIMS = {
           'operations are guarded by is_connected; callback token shape '
           '(room, namespace, id), arity test and relay binding.'
           ' Also: every path of a well-formed remote message reaches its handler exactly once whatever else the listener tests; the host id compared by the echo filter is drawn afresh per manager object.'
-          ' Also: the disconnect on the owning host ends with a local release (shared C04.R2).',
+          ' Also: the disconnect on the owning host ends with a local release (shared C04.R2).'
+          " Also: the ignore_queue branches hand this call's own arguments to the base class.",
   'note': TRUST + 'the backend channel is FIFO and reaches every host.',
   'technique': 'static analysis: writer/reader schema agreement, decision '
                'table over message method x origin, pairing/order on paths',
@@ -343,7 +358,8 @@ CLAIMS = {
           'only on the admin namespace. Timing and failures inside the '
           'instrumentation are NOT decided.'
           ' Also: tables the instrumentation hangs on the server are filled before the original runs (the deleting wrapper arm cannot fail in front of the application).'
-          " Also: the server's connect path contains refusals and treats a failed handler (raising predicate) as not accepted (shared C04.R9).",
+          " Also: the server's connect path contains refusals and treats a failed handler (raising predicate) as not accepted (shared C04.R9)."
+          ' Also: a wrapper indexes no server state before the original has run; instrument() forwards its configuration parameter by parameter.',
   'note': TRUST + 'Python equality decides "equals the credentials".',
   'technique': 'static analysis: decision table, guard dominance, wrapper '
                'forwarding check',
